@@ -7,6 +7,7 @@ import (
 	"sync"
 	"sync/atomic"
 	"testing"
+	"time"
 
 	fpgo "github.com/TeaEntityLab/fpGo/v2"
 	"pgregory.net/rapid"
@@ -54,10 +55,36 @@ func bigID(e bigElem) (int, bool) {
 }
 
 func runBulk(c bulkCase) (key, msg string) {
-	if c.Big {
-		return runBulkT(c, mkBig, bigID)
+	return guarded("c08.runBulkT", func() (string, string) {
+		if c.Big {
+			return runBulkT(c, mkBig, bigID)
+		}
+		return runBulkT(c, func(v int) int { return v }, func(v int) (int, bool) { return v, true })
+	})
+}
+
+// guarded runs one case under a hang guard: the calls of a case never wait for anything but the wrapper's own
+// lock, so goroutines that are all blocked for good mean the wrapper wedged itself ("no call ... corrupts").
+func guarded(needle string, run func() (string, string)) (key, msg string) {
+	type res struct{ key, msg string }
+	done := make(chan res, 1)
+	go func() { k, m := run(); done <- res{k, m} }()
+	select {
+	case r := <-done:
+		return r.key, r.msg
+	case <-time.After(6 * vlib.StallBudget()):
 	}
-	return runBulkT(c, func(v int) int { return v }, func(v int) (int, bool) { return v, true })
+	verdict, dump := vlib.ClassifyStall([]string{needle})
+	select {
+	case r := <-done:
+		return r.key, r.msg
+	default:
+	}
+	if verdict == "blocked" {
+		return "C08/hang", "the calls on the wrapper do not return any more (every goroutine of the case is blocked):\n" + dump
+	}
+	vlib.S().Class("guarded/inconclusive")
+	return "", ""
 }
 
 func (c bulkCase) String() string { b, _ := json.Marshal(c); return string(b) }
@@ -332,6 +359,10 @@ type faultyCase struct {
 func (c faultyCase) String() string { b, _ := json.Marshal(c); return string(b) }
 
 func runFaulty(c faultyCase) (key, msg string) {
+	return guarded("c08.runFaultyInner", func() (string, string) { return runFaultyInner(c) })
+}
+
+func runFaultyInner(c faultyCase) (key, msg string) {
 	w := &sliceDeque{every: c.Every, asErr: c.AsErr}
 	cq := fpgo.NewConcurrentQueue[int](w)
 	cs := fpgo.NewConcurrentStack[int](w)
